@@ -13,12 +13,16 @@ for p in props.split(","):
     out.append("# property: %s\n" % p)
 for e in expect.split("|"):
     out.append("# expect: %s\n" % e)
+files = {}
 for i in range(0, len(rest), 3):
     f, old, new = rest[i:i + 3]
+    if f not in files:
+        files[f] = open(os.path.join("/repo", f)).read()
+    if files[f].count(old) != 1:
+        sys.exit("mk: %r occurs %d times in %s" % (old[:60], files[f].count(old), f))
+    files[f] = files[f].replace(old, new)
+for f, dst in files.items():
     src = open(os.path.join("/repo", f)).read()
-    if src.count(old) != 1:
-        sys.exit("mk: %r occurs %d times in %s" % (old[:60], src.count(old), f))
-    dst = src.replace(old, new)
     out.extend(difflib.unified_diff(src.splitlines(True), dst.splitlines(True), "a/" + f, "b/" + f))
 path = os.path.join(os.path.dirname(os.path.abspath(__file__)), "mutants", name + ".diff")
 open(path, "w").write("".join(out))
